@@ -9,6 +9,7 @@ import (
 
 	"verif/h/comp"
 	"verif/h/core"
+	"verif/h/props"
 )
 
 type entry struct {
@@ -17,6 +18,7 @@ type entry struct {
 }
 
 var registry = map[string]entry{
+	"C01": {"exploration", props.C01},
 	"C20": {"exploration", comp.C20},
 	"C21": {"exploration", comp.C21},
 	"C16": {"exploration", comp.C16},
